@@ -155,7 +155,8 @@ class DummyFile:
         return d
 
     def write(self, b):
-        return len(b)
+        # the pipe takes nothing right now: a real Mux.flush leaves the queue as it is (the simulator moves frames)
+        raise BlockingIOError(errno.EAGAIN, 'pipe full')
 
     def flush(self):
         pass
@@ -254,7 +255,9 @@ class RealTunnel:
 
             def select(s, r, w, x, *a):
                 rr, ww, xx = self.ready
-                return ([i for i in r if i in rr], [i for i in w if i in ww], [])
+                # a tunnel read file is readable only while bytes are waiting in it
+                return ([i for i in r if i in rr and (not isinstance(i, DummyFile) or i.data)],
+                        [i for i in w if i in ww], [])
 
             def __getattr__(s, n):
                 return getattr(s._real, n)
@@ -437,14 +440,24 @@ class RealTunnel:
             k += 1
         data = b''.join(src.outbuf[:k])
         del src.outbuf[:k]
-        socks = []
+        socks, rsocks = [], []
+        auto = (ready_flows == 'auto')
         for i, f in enumerate(self.flows):
             p = f.cproxy if end == 'c' else f.sproxy
             sock = f.app_sock if end == 'c' else f.dst_sock
+            env = f.app if end == 'c' else f.dst
             if p is not None and p in hl and sock is not None:
-                if i in ready_flows:
+                if auto:
+                    # the environment as it is: readable iff something is pending or the endpoint closed; always
+                    # writable; select hands back only what pre_select asked for
+                    sock.io = iov
+                    socks.append(sock)
+                    if env.pending or env.eof_in:
+                        rsocks.append(sock)
+                elif i in ready_flows:
                     sock.io = iov          # select reports it; it answers per iov
                     socks.append(sock)
+                    rsocks.append(sock)
                 else:
                     sock.io = QUIET        # not reported: nothing to read, writable if the proxy tries
         for f in self.flows:
@@ -452,7 +465,10 @@ class RealTunnel:
             if p is not None and p in hl:
                 self._note_abort(end, f, p)
         mux.rfile.data = data
-        self.ready = (([mux.rfile] if data else []) + socks, list(socks), [])
+        # the tunnel's write file is writable whenever the Mux asks (it asks while its queue is non-empty): that
+        # readiness gives every Proxy of this end a callback too — the loop's "flush wake-up"
+        wready = list(socks) + ([mux.wfile] if auto else [])
+        self.ready = (([mux.rfile] if data else []) + rsocks, wready, [])
         calls = []
         wrapped = []
         for i, f in enumerate(self.flows):
@@ -460,7 +476,7 @@ class RealTunnel:
             if p is not None and p in hl:
                 orig = p.callback
 
-                def logged(sock, _i=i, _orig=orig, _io=(iov if i in ready_flows else QUIET)):
+                def logged(sock, _i=i, _orig=orig, _io=(iov if (auto or i in ready_flows) else QUIET)):
                     calls.append((_i, _io.text()))
                     return _orig(sock)
                 p.callback = logged
